@@ -217,6 +217,15 @@ func marching2(r *vlib.Run) {
 			dyadic = 32
 		} else {
 			delta = 0.02 + 0.1*rng.Float64()
+			if rng.Intn(2) == 0 {
+				// the same shape in other units (nanometres to kilometres): every clause is relative
+				// to the spacing, nothing in the contract is absolute
+				k := math.Pow(10, -9+15*rng.Float64())
+				inner := s
+				s = &fsolid2{inner.min.Scale(k), inner.max.Scale(k), func(p C2) bool { return inner.Contains(p.Scale(1 / k)) }, fmt.Sprintf("scaled(%g,%s)", k, inner.desc)}
+				delta *= k
+				c.Count("ms.cases_in_other_units", 1)
+			}
 		}
 		iters := []int{0, 1, 2, 5, 8}[rng.Intn(5)]
 		if dyadic > 0 && iters > 5 {
